@@ -83,13 +83,17 @@ impl Fm {
             Some((rate, draw)) => Fm::Sampled(cfg.build().with_sampling_and_rng(ScriptRng(draw)), rate),
         }
     }
-    fn run(&mut self, item: &Item, mode: WriterMode) -> (FmtResult, Vec<u8>) {
+    /// `how`: on a sampled formatter, None = the sequence's rate, Some(Some(r)) = another rate for
+    /// this item, Some(None) = the plain `Format::format` of the sampled formatter (bypasses sampling)
+    fn run(&mut self, item: &Item, mode: WriterMode, how: Option<Option<f32>>) -> (FmtResult, Vec<u8>) {
         let mut w = ScriptW { mode, calls: 0, got: vec![] };
         let r = match (self, item) {
             (Fm::Plain(f), Item::Entry(e)) => f.format(e, &mut w),
             (Fm::Plain(f), Item::ErrorReport(m)) => f.format(&MetriqueValidationError::new(m), &mut w),
-            (Fm::Sampled(f, rate), Item::Entry(e)) => f.format_with_sample_rate(e, &mut w, *rate),
-            (Fm::Sampled(f, rate), Item::ErrorReport(m)) => f.format_with_sample_rate(&MetriqueValidationError::new(m), &mut w, *rate),
+            (Fm::Sampled(f, _), Item::Entry(e)) if how == Some(None) => f.format(e, &mut w),
+            (Fm::Sampled(f, _), Item::ErrorReport(m)) if how == Some(None) => f.format(&MetriqueValidationError::new(m), &mut w),
+            (Fm::Sampled(f, rate), Item::Entry(e)) => f.format_with_sample_rate(e, &mut w, how.flatten().unwrap_or(*rate)),
+            (Fm::Sampled(f, rate), Item::ErrorReport(m)) => f.format_with_sample_rate(&MetriqueValidationError::new(m), &mut w, how.flatten().unwrap_or(*rate)),
         };
         (
             match r {
@@ -157,6 +161,14 @@ fn item_json(i: &Item) -> vcommon::serde_json::Value {
 }
 
 fn gen_item(rng: &mut Rng, cfg: &Cfg, thorough: bool) -> (Item, &'static str) {
+    if rng.below(if thorough { 40 } else { 60 }) == 0 {
+        // one metric with hundreds of thousands of observations: megabytes of Values / Counts
+        let mut e = gen_valid_entry(rng, cfg, false, false);
+        let n = 300_000 + rng.usize_below(500_000);
+        let obs: Vec<vcommon::recording::Obs> = (0..n).map(|i| vcommon::recording::Obs::U((i % 9) as u64)).collect();
+        e.ops.push(POp::Value("HugeDistribution".into(), PVal::Metric { obs, unit: metrique_writer::Unit::Count, dims: vec![], flags: None }));
+        return (Item::Entry(e), "huge-distribution");
+    }
     match rng.below(20) {
         0 => (Item::ErrorReport("metric entry could not be formatted correctly".into()), "error-report"),
         1 | 2 => {
@@ -195,11 +207,16 @@ fn run_sequence(rng: &mut Rng, thorough: bool, start_millis: u128, rep: &Report)
     for pos in 0..n {
         let (item, kind) = gen_item(rng, &cfg, thorough);
         let mode = if rng.below(6) == 0 { WriterMode::FailAt { fail_at: rng.below(4), accept: 1 + rng.usize_below(200) } } else { WriterMode::Vec };
-        let (r1, b1) = long_lived.run(&item, mode);
-        let (r2, b2) = Fm::new(&cfg, sampling).run(&item, mode);
+        let how = match rng.below(4) {
+            0 => Some(None),
+            1 => Some(Some(*rng.pick(&[1.0f32, 0.5, 0.25, 0.3, 1e-3, 1e-9]))),
+            _ => None,
+        };
+        let (r1, b1) = long_lived.run(&item, mode, how);
+        let (r2, b2) = Fm::new(&cfg, sampling).run(&item, mode, how);
         rep.eval();
         rep.count(&format!("position_kind:{kind}"), 1);
-        history.push(format!("{kind}/{mode:?}/{r1:?}").chars().take(90).collect());
+        history.push(format!("{kind}/{mode:?}/{}{r1:?}", if sampling.is_some() { format!("{how:?}/") } else { String::new() }).chars().take(110).collect());
         let witness = |what: &str| {
             json!({"what": what, "cfg": cfg.json(), "sampling": format!("{sampling:?}"), "position": pos, "history_before": history,
                    "item": item_json(&item), "writer": format!("{mode:?}"),
